@@ -1,5 +1,138 @@
+import OpusModel.Dtx
 import Driver.Util
-/- Suite stub — replaced by the owner of this suite. -/
+/- Suite `dtx`: the DTX skeleton of the encoder replayed from recorded oracles (C20).
+   `call <cfg8> <state9> <oracles…>`   one opus_encode call from an explicit pre-state
+   `run  <cfg8> <ncalls> <oracles…>…`  a whole run from the state of a fresh encoder            -/
 namespace Driver.SuiteDtx
-def handle (_ : List String) : String := "bad-op"
+open Opus Opus.Dtx Driver
+
+abbrev P (α : Type) := List String → Option (α × List String)
+
+def pNat : P Nat
+  | t :: ts => (parseNat t).map (·, ts)
+  | [] => none
+def pInt : P Int
+  | t :: ts => (parseInt t).map (·, ts)
+  | [] => none
+def pBool : P Bool
+  | "0" :: ts => some (false, ts)
+  | "1" :: ts => some (true, ts)
+  | _ => none
+def pMode : P Mode
+  | "0" :: ts => some (.none, ts)
+  | "1" :: ts => some (.silk, ts)
+  | "2" :: ts => some (.hybrid, ts)
+  | "3" :: ts => some (.celt, ts)
+  | _ => none
+
+def pRep {α} (p : P α) : Nat → P (List α)
+  | 0, ts => some ([], ts)
+  | n + 1, ts => do
+    let (a, ts) ← p ts
+    let (as, ts) ← pRep p n ts
+    pure (a :: as, ts)
+
+def pCfg : P Cfg := fun ts => do
+  let (useDtx, ts) ← pBool ts
+  let (fs, ts) ← pNat ts
+  let (ch, ts) ← pNat ts
+  let (cx, ts) ← pNat ts
+  let (vbr, ts) ← pBool ts
+  let (ubr, ts) ← pInt ts
+  let (out, ts) ← pNat ts
+  let (q, ts) ← pNat ts
+  pure ({ useDtx := useDtx, fs := fs, channels := ch, complexity := cx, useVbr := vbr, userBitrate := ubr, outBytes := out, q := q }, ts)
+
+def pState : P St := fun ts => do
+  let (nb, ts) ← pNat ts
+  let (pm, ts) ← pMode ts
+  let (sdtx, ts) ← pBool ts
+  let (c0, ts) ← pNat ts
+  let (c1, ts) ← pNat ts
+  let (ench, ts) ← pNat ts
+  let (mnch, ts) ← pNat ts
+  let (pmo, ts) ← pNat ts
+  let (md, ts) ← pMode ts
+  pure ({ nb := nb, prevMode := pm, silkUseDtx := sdtx, silk := ⟨c0, c1, ench, pmo != 0⟩, modeNch := mnch, mode := md }, ts)
+
+def pSFrame : P SFrame := fun ts => do
+  let (l0, ts) ← pBool ts
+  let (m, ts) ← pBool ts
+  let (l1, ts) ← pBool ts
+  pure (⟨l0, m, l1⟩, ts)
+
+def pSCall : P SCall := fun ts => do
+  let (pf, ts) ← pNat ts
+  let (nch, ts) ← pNat ts
+  let (nfr, ts) ← pNat ts
+  let (fr, ts) ← pRep pSFrame nfr ts
+  pure (⟨pf, nch, fr⟩, ts)
+
+def pSub : P Sub := fun ts => do
+  let (valid, ts) ← pInt ts
+  let (act, ts) ← pInt ts
+  let (ns, ts) ← pNat ts
+  let (sc, ts) ← pRep pSCall ns ts
+  pure ({ valid := valid != 0, det := act == 1, silk := sc }, ts)
+
+def pCallOr : P CallOr := fun ts => do
+  let (ds, ts) ← pBool ts
+  let (v0, ts) ← pBool ts
+  let (md, ts) ← pMode ts
+  let (tc, ts) ← pBool ts
+  let (nsub, ts) ← pNat ts
+  let (subs, ts) ← pRep pSub nsub ts
+  pure ({ digSil := ds, valid0 := v0, mode := md, toCelt := tc, subs := subs }, ts)
+
+def modeTok : Mode → String
+  | .none => "0" | .silk => "1" | .hybrid => "2" | .celt => "3"
+
+def stateStr (s : St) : String :=
+  s!"{s.nb} {modeTok s.prevMode} {if s.silkUseDtx then 1 else 0} {s.silk.c0} {s.silk.c1} {s.silk.nch} {s.modeNch} {if s.silk.pmo then 1 else 0} {modeTok s.mode}"
+
+def lenStr : Pkt → String
+  | .err e => errStr e
+  | .lowBudget n => if n ≤ 2 then s!"len={n}" else "len=N"
+  | .dtx n => s!"len={n}"
+  | .normal => "len=N"
+  | .badOracle => "BAD-ORACLE"
+
+def listOr (l : List String) : String := if l.isEmpty then "-" else ",".intercalate l
+
+def callStr (c : Cfg) (r : St × Pkt × Trace) : String :=
+  match r.2.1 with
+  | .err e => s!"{errStr e} sil=-1 acts=- nz=- tc=- indtx={if inDtx c r.1 then 1 else 0} st={stateStr r.1}"
+  | p =>
+    s!"{lenStr p} sil={r.2.2.sil} acts={listOr (r.2.2.acts.map toString)} nz={listOr (r.2.2.nz.map (fun b => if b then "1" else "0"))} tc={listOr (r.2.2.tc.map (fun b => if b then "1" else "0"))} indtx={if inDtx c r.1 then 1 else 0} st={stateStr r.1}"
+
+def pktChar : Pkt → Char
+  | .err _ => 'E'
+  | .lowBudget n => if n = 1 then '1' else if n = 2 then '2' else 'N'
+  | .dtx n => if n = 1 then '1' else '2'
+  | .normal => 'N'
+  | .badOracle => '?'
+
+def handle : List String → String
+  | "call" :: ts =>
+    match (do
+      let (c, ts) ← pCfg ts
+      let (st, ts) ← pState ts
+      let (o, ts) ← pCallOr ts
+      if ts.isEmpty then pure (c, st, o) else none) with
+    | some (c, st, o) => callStr c (encodeCall c st o)
+    | none => "bad-op"
+  | "run" :: ts =>
+    match (do
+      let (c, ts) ← pCfg ts
+      let (n, ts) ← pNat ts
+      let (os, ts) ← pRep pCallOr n ts
+      if ts.isEmpty then pure (c, os) else none) with
+    | some (c, os) =>
+      let tr := run c (initSt c.channels) os
+      let fin := runFinal c (initSt c.channels) os
+      "pk=" ++ String.ofList (tr.map (fun x => pktChar x.1)) ++ " dx=" ++ String.ofList (tr.map (fun x => if x.2 then '1' else '0'))
+        ++ " st=" ++ stateStr fin
+    | none => "bad-op"
+  | _ => "bad-op"
+
 end Driver.SuiteDtx
